@@ -58,8 +58,9 @@ def history_options(draw, mode):
     default discretisation scaled by two for climb and cruise (50-point phases,
     hand-over exactly on the per-point buffers' block boundary)."""
     if mode == 'block':
-        return {'clm': 0.02, 'crz': 0.02, 'des': draw(st.sampled_from([0.02, 0.25, 0.5])), 'iterate': draw(st.booleans()),
-                'max_iters': draw(st.integers(1, 3)), 'reltol': draw(st.sampled_from([1e-9, 1e-2, 0.05, 0.2]))}
+        return {'clm': 0.02, 'crz': 0.02, 'des': draw(st.sampled_from([0.02, 0.25, 0.5])),
+                'iterate': draw(st.sampled_from([True, True, False])), 'max_iters': draw(st.sampled_from([1, 2, 3, 3])),
+                'reltol': draw(st.sampled_from([1e-9, 1e-3, 1e-2, 0.05, 0.2]))}
     weather = mode == 'weather'
     n = st.integers(2, 4) if weather else st.one_of(st.integers(2, 12), st.integers(2, 25))
     frac = st.one_of(n.map(lambda k: 1.0 / k), n.map(lambda k: 1.0 / (k + 0.5)))
@@ -404,8 +405,8 @@ def run(ctx: core.Ctx):
         'weather histories use routes inside the test file domain (33-43N, 85-71W) on 2024-09-01',
     ]
     with _env(ctx):
-        core.run_machine(ctx, machine_for('block'), max_examples=ctx.n(14, 130), steps=16, salt=0)
-        core.run_machine(ctx, machine_for('fine'), max_examples=ctx.n(18, 160), steps=16, salt=20)
+        core.run_machine(ctx, machine_for('block'), max_examples=ctx.n(16, 130), steps=16, salt=0)
+        core.run_machine(ctx, machine_for('fine'), max_examples=ctx.n(16, 160), steps=16, salt=20)
         core.run_machine(ctx, machine_for('weather'), max_examples=ctx.n(6, 40), steps=16, salt=40)
 
 
